@@ -434,6 +434,30 @@ func (bp *BytePred) eval(info *types.Info, e ast.Expr, env bpEnv, depth int) (bp
 				return bpVal{B: unicode.IsSpace(rune(v.I)), Is: true}, true
 			case "IsUpper":
 				return bpVal{B: unicode.IsUpper(rune(v.I)), Is: true}, true
+			case "IsLower":
+				return bpVal{B: unicode.IsLower(rune(v.I)), Is: true}, true
+			case "IsTitle":
+				return bpVal{B: unicode.IsTitle(rune(v.I)), Is: true}, true
+			case "IsNumber":
+				return bpVal{B: unicode.IsNumber(rune(v.I)), Is: true}, true
+			case "IsPunct":
+				return bpVal{B: unicode.IsPunct(rune(v.I)), Is: true}, true
+			case "IsSymbol":
+				return bpVal{B: unicode.IsSymbol(rune(v.I)), Is: true}, true
+			case "IsMark":
+				return bpVal{B: unicode.IsMark(rune(v.I)), Is: true}, true
+			case "IsControl":
+				return bpVal{B: unicode.IsControl(rune(v.I)), Is: true}, true
+			case "IsGraphic":
+				return bpVal{B: unicode.IsGraphic(rune(v.I)), Is: true}, true
+			case "IsPrint":
+				return bpVal{B: unicode.IsPrint(rune(v.I)), Is: true}, true
+			case "ToLower":
+				return bpVal{I: int64(unicode.ToLower(rune(v.I)))}, true
+			case "ToUpper":
+				return bpVal{I: int64(unicode.ToUpper(rune(v.I)))}, true
+			case "SimpleFold":
+				return bpVal{I: int64(unicode.SimpleFold(rune(v.I)))}, true
 			}
 			return bpVal{}, false
 		}
